@@ -2,7 +2,7 @@ CONSTANTS
  MaxIn = 4
  MaxStart = 8
  MaxInit = 4
- Depth = 3
+ Depth = 2
 SPECIFICATION Spec
 VIEW View
 CONSTRAINT Bound
